@@ -5,7 +5,7 @@ import FunModel.Queue
 
     A specification state is a plain list of items (oldest first), the closed flag and the limit
     tracker. The tracker is used as an *opaque admission oracle*: the specification asks it whether an
-    add is admitted (`Tracker.add`), whether there is room below the soft quota (`Tracker.hasRoom`) and
+    add is accepted (`Tracker.add`), whether there is room below the soft quota (`Tracker.hasRoom`) and
     tells it about removals (`Tracker.remove`); it never looks at the burst credit (a `Float`).
 
     `Spec.apply s op cancelled` is the effect and the result of running the whole operation `op`
